@@ -14,7 +14,8 @@
 
    One tick of the real goroutine is SDecide; SSample*; SReset — Stop may fall between any two of them, and
    ticks may continue after Stop (select picks a ready ticker case at random; Stop does not wait for the
-   goroutine).  Every theorem about "exactly once" quantifies over ALL lists of these events, bracketed or not.
+   goroutine).  Since /repo 628ae12 reset() is a no-op once Stop has run: callbacks that were blocked on
+   trieMutex while Stop ran, and samples of later ticks, go into fresh tries that are never uploaded.  Every theorem about "exactly once" quantifies over ALL lists of these events, bracketed or not.
 
    Time is Z nanoseconds since Go's zero time (year 1); time.Truncate(d) for d > 0 rounds down to a multiple
    of d counted from there.  Tries are multisets stack -> count (association lists); the byte-level trie is
@@ -160,9 +161,10 @@ Definition with_due (s : sstate) (d : bool) : sstate :=
 Definition with_stopped (s : sstate) : sstate :=
   {| ss_tries := ss_tries s; ss_prev := ss_prev s; ss_start := ss_start s; ss_due := ss_due s; ss_stopped := true |}.
 
-(* reset(): uploadTries(now); startTime = now *)
+(* reset(): nothing once Stop has run (/repo 628ae12); otherwise uploadTries(now); startTime = now *)
 Definition do_reset (c : scfg) (now : Z) (s : sstate) : list ujob * sstate :=
-  let '(js, s') := upload_tries c now s in (js, with_start s' now).
+  if ss_stopped s then ([], s)
+  else let '(js, s') := upload_tries c now s in (js, with_start s' now).
 
 Inductive sevent :=
 | SStart (now : Z)
@@ -199,7 +201,9 @@ Definition s_step (c : scfg) (s : sstate) (e : sevent) : list ujob * sstate :=
   | SDecide t1 => ([], with_due s (is_due c s t1))
   | SSample spy k v => ([], insert_sample c spy k v s)
   | SReset t2 => if ss_due s then let '(js, s') := do_reset c t2 s in (js, with_due s' false) else ([], s)
-  | SStop ts => upload_tries c ts (with_stopped s)
+  | SStop ts =>
+      (* a second Stop panics in its caller at close(stopCh), before anything is uploaded *)
+      if ss_stopped s then ([], s) else upload_tries c ts (with_stopped s)
   end.
 
 (* jobs in upload order, final state *)
